@@ -383,3 +383,17 @@ for _u in _c19["UNITS"]:
         _u.template = "../C19/" + _u.template
         UNITS.append(_u)
 META["trusted_base"] = list(META.get("trusted_base", [])) + ["unit c19.state.select_active_pu is the C19 unit of the same name (specs/C19/state.c) with its trusted base"]
+
+
+# ---- C17 units reused (added after seeded change C02-8 was missed): a woken task is made `pending` and handed to work_items_.push of the
+# ---- queue back end; set_thread_state / schedule_thread ignore the result, so "push stores the element (enqueue, which grows the queue)"
+# ---- is what keeps a resumed task from vanishing.  Same templates, same contracts as C17.
+_c17 = {"UNITS": [], "VX_NO_REUSE": True}
+if not globals().get("VX_NO_REUSE"):
+    exec(compile(open("/verif/specs/C17/spec.py").read(), "/verif/specs/C17/spec.py", "exec"), _c17)
+for _u in _c17["UNITS"]:
+    if ((_u.name.startswith("backends.") and not _u.name.startswith("backends.ciq.")) or _u.name.startswith("backend.")) and _u.kind != "bounded":
+        _u.name = "c17." + _u.name
+        _u.template = "../C17/" + _u.template.replace("../C17/", "")
+        UNITS.append(_u)
+META["trusted_base"] = list(META.get("trusted_base", [])) + ["units c17.backend(s).* are the C17 units of the same name (specs/C17/backends*.c) with their trusted base"]
